@@ -62,6 +62,17 @@ CHECKS = {
         note="Trusted: exact-LSQ stub as the contract of numpy.linalg.lstsq; the twins (dtype, working directory, file path) are "
              "concrete runs, not solver results. Subsets of supplied components outside the listed families are outside the claim.",
         design="3/C09"),
+    "C03": dict(
+        engine="symnum+z3",
+        technique="symbolic execution of the real shear.py class on a symbolic 21-component tensor; eigen-frame of the concrete "
+                  "fictitious strain lifted to exact algebraic numbers; z3 QF_NRA decides target == C_key modulo the atoms' defining "
+                  "equations, for the computed frame, sign/order variants and the rotation family of degenerate eigenspaces",
+        text="For all real symmetric fourth-rank tensors at once (21 symbolic components) and all 15 shear keys: z3 shows the value "
+             "returned by get_target_elastic_modulus equals the target component; requested keys exclude the target; rotated axial "
+             "strains are diag(T^T diag(e) T) with trace preserved and frame-independent as a multiset.",
+        note="Trusted: exact lift of the LAPACK frame (verified exactly with sympy: M v = lambda v, orthonormal), oracle rotation of the "
+             "tensor by the harness's own 4-index contraction. Float non-orthogonality (1e-16) is outside.",
+        design="3/C03"),
 }
 
 NOT_APPLICABLE = {
